@@ -609,7 +609,11 @@ func (x *Explorer) external(st *State, site ssa.CallInstruction, cc *ssa.CallCom
 func (x *Explorer) callLevel(st *State, site ssa.CallInstruction, cc *ssa.CallCommon, callee *ssa.Function) {
 	if o := callee.Object(); o != nil && o.Pkg() == x.P.Types && o.Name() == "CloneObject" && callee.Signature.Recv() == nil {
 		st.add(EClone)
-		x.L.Event(x, st, &Event{Kind: EvEffect, Eff: EClone, Instr: site, Callee: callee})
+		var ct Tag
+		if len(cc.Args) > 0 {
+			ct = x.tagsOf(st, cc.Args[0])
+		}
+		x.L.Event(x, st, &Event{Kind: EvEffect, Eff: EClone, Instr: site, Callee: callee, Tags: ct})
 	}
 	cl := x.C.Of(callee)
 	if cl.Has(EJsonEncSchema) && cl.Has(EFsWSchema) {
